@@ -598,6 +598,13 @@ def runCb {σ : Type} (f : σ → Bytes → Bytes → σ × Bool) : List (Bytes 
     let (st', stop) := f st k v
     if stop then (st', true) else runCb f rest st'
 
+/-- digest of the whole record map: number of records and the hash of the length-prefixed records in key order
+(compared with the same digest of the real database: pins exactly what has been written). -/
+def dumpDb (H : Bytes → Bytes) (db : NodeDB) : Nat × Bytes :=
+  let recs := db.toList.mergeSort (fun a b => cmpB a.1 b.1 != .gt)
+  let enc := recs.foldr (fun p acc => Proto.varint p.1.length ++ p.1 ++ Proto.varint p.2.length ++ p.2 ++ acc) []
+  (recs.length, H enc)
+
 /-! ## 7. line protocol (shared by drv_c01 / drv_c02 / drv_c03) -/
 
 namespace Drv
@@ -649,6 +656,9 @@ def handle (s : Store) (ws : List String) : Option (Store × String) :=
   match ws with
   | ["new", c] => (pCfg c).map fun c => (newStore c, "ok")
   | ["reopen"] => some (s.reopen, "ok")
+  | ["dump"] =>
+    let (n, d) := dumpDb H s.db
+    some (s, s!"{n} " ++ toHex d)
   | ["set", parent, bh, kvs] => do
     let parent ← pBytes parent
     let bh ← bh.toNat?
